@@ -12,6 +12,10 @@ def main():
     sys.stderr = open(os.devnull, "w")
     import importlib
 
+    if os.environ.get("PYAB_ENVSPY"):
+        from pyabverif import envspy
+
+        envspy.install()
     mod = importlib.import_module("pyabverif.props." + pid.lower())
     with open(path, encoding="ascii") as f:
         cases = json.load(f)
@@ -22,7 +26,8 @@ def main():
             out.append(fn(c))
         except Exception as e:  # a crash of the judge itself is reported, not hidden
             out.append(["child judge crashed: %s: %s" % (type(e).__name__, e)])
-    real_out.write(json.dumps({"flags": {"optimize": sys.flags.optimize, "hashseed": os.environ.get("PYTHONHASHSEED")}, "results": out},
+    real_out.write(json.dumps({"flags": {"optimize": sys.flags.optimize, "hashseed": os.environ.get("PYTHONHASHSEED")}, "results": out,
+                               "env_keys": sys.modules["pyabverif.envspy"].keys() if "pyabverif.envspy" in sys.modules else []},
                               ensure_ascii=True))
 
 
